@@ -1,5 +1,6 @@
 import RTV.Drv.Proto
 import RTV.Model.Choice
+import RTV.Model.ChoiceEnv
 import RTV.Model.Preprocess
 import RTV.Gen.Regexes
 import RTV.Gen.CharTables
@@ -14,7 +15,9 @@ import RTV.Gen.Emoji
 namespace RTV.Drv
 open RTV.Py RTV.Re RTV.Choice
 
-def boolEnv : Env where
+def boolEnv : Env := RTV.Choice.genEnv
+
+def boolEnvOld : Env where
   T := RTV.Gen.reTables
   trueRe := RTV.Gen.boolTrueRegex
   falseRe := RTV.Gen.boolFalseRegex
